@@ -77,7 +77,12 @@ func (e *Engine) findSubmatchAtWithState(haystack []byte, at int, state *SearchS
 	// OnePass handles captures natively — no need for two-phase search.
 	if at == 0 && e.onepass != nil && state.onepassCache != nil {
 		atomic.AddUint64(&e.stats.OnePassSearches, 1)
-		slots := e.onepass.Search(haystack, state.onepassCache)
+		var slots []int
+		if e.longest {
+			slots = e.onepass.SearchLongest(haystack, state.onepassCache)
+		} else {
+			slots = e.onepass.Search(haystack, state.onepassCache)
+		}
 		if slots != nil {
 			captures := slotsToCaptures(slots)
 			return NewMatchWithCaptures(haystack, captures)
